@@ -40,14 +40,25 @@ class FunctionEffects(ast.NodeVisitor):
         self.fn, self.qualname, self.path = fn, qualname, path
         a = fn.args
         self.params = {x.arg for x in a.args + a.kwonlyargs + a.posonlyargs} | ({a.vararg.arg} if a.vararg else set()) | ({a.kwarg.arg} if a.kwarg else set())
+        self.param_order = [x.arg for x in a.posonlyargs + a.args]
+        self.kwarg_name = a.kwarg.arg if a.kwarg else None
+        self.calls = []            # (callee simple name, [positional arg is the caller's own fresh container?], {keyword: own?})
         self.fresh = set()         # local names / dotted paths bound to freshly allocated objects in this function
         self.shallow = set()       # names bound to objects *constructed from* operands: new object, but sub-objects may be shared
         self.alias = {}            # local name -> parameter it may alias
         self.sites = []
         self.errstate_ok = True
 
-    def flag(self, node, kind, text):
-        self.sites.append(dict(kind=kind, where=f"{self.path}:{node.lineno}", function=self.qualname, text=text))
+    def flag(self, node, kind, text, root=None):
+        if root is not None:
+            root = self.alias.get(root, root)
+        self.sites.append(dict(kind=kind, where=f"{self.path}:{node.lineno}", function=self.qualname, text=text, root=root, params=list(self.param_order)))
+
+    def _own(self, e):
+        """is this argument expression a container the *calling* function created itself (its **kwargs dict, a fresh local, a literal)?"""
+        if isinstance(e, ast.Name):
+            return e.id == self.kwarg_name or (e.id in self.fresh and e.id not in self.alias)
+        return self.is_fresh_expr(e)
 
     def is_fresh_expr(self, v):
         if isinstance(v, (ast.Dict, ast.List, ast.Set, ast.Tuple, ast.ListComp, ast.DictComp, ast.SetComp, ast.Constant, ast.JoinedStr, ast.BinOp, ast.Compare, ast.BoolOp, ast.UnaryOp)):
@@ -159,7 +170,7 @@ class FunctionEffects(ast.NodeVisitor):
         elif isinstance(t, (ast.Attribute, ast.Subscript)):
             d = dotted(t)
             if self.param_reach(t.value):
-                self.flag(node, "store-through-parameter", ast.unparse(t) + " = ...")
+                self.flag(node, "store-through-parameter", ast.unparse(t) + " = ...", root=base_name(t))
             elif base_name(t) is not None and base_name(t) not in self.fresh and base_name(t) not in self.params and base_name(t) not in self.alias and not _is_local(self.fn, base_name(t)):
                 self.flag(node, "store-to-module-state", ast.unparse(t) + " = ...")
             if d is not None and value is not None and self.is_fresh_expr(value):
@@ -210,9 +221,13 @@ class FunctionEffects(ast.NodeVisitor):
     def visit_Call(self, node):
         f = node.func
         d = dotted(f)
+        cname = f.id if isinstance(f, ast.Name) else (f.attr if isinstance(f, ast.Attribute) else None)
+        if cname:
+            self.calls.append((cname, [self._own(a) for a in node.args if not isinstance(a, ast.Starred)] if not any(isinstance(a, ast.Starred) for a in node.args) else None,
+                               {k.arg: self._own(k.value) for k in node.keywords if k.arg}))
         if isinstance(f, ast.Attribute):
             if f.attr in MUTATORS and self.param_reach(f.value):
-                self.flag(node, "mutator-call-on-operand", ast.unparse(node)[:120])
+                self.flag(node, "mutator-call-on-operand", ast.unparse(node)[:120], root=base_name(f.value))
             elif f.attr in MUTATORS and base_name(f.value) is not None and not _is_local(self.fn, base_name(f.value)) and base_name(f.value) not in self.params:
                 b = dotted(f.value) or ""
                 if not any(b == x or b.startswith(x + ".") for x in self.fresh):
@@ -245,8 +260,35 @@ def _is_local(fn, name):
     return False
 
 
+CALLS = {}      # callee simple name -> recorded calls (filled by analyse_tree)
+
+
+def consumes_callers_own_container(site):
+    """a private helper that writes through parameter P is harmless when every call site in the tree passes, for P, a container the caller created
+    itself (its **kwargs dict, a fresh local, a literal): the write never reaches an object that existed before the public call"""
+    fn = site["function"].split(".")[-1]
+    root = site.get("root")
+    if not fn.startswith("_") or fn.startswith("__") or root is None or root not in site.get("params", []):
+        return None
+    idx = site["params"].index(root)
+    calls = CALLS.get(fn, [])
+    if not calls:
+        return None
+    for name, pos, kws in calls:
+        if root in kws:
+            ok = kws[root]
+        elif pos is not None and idx < len(pos):
+            ok = pos[idx]
+        else:
+            ok = False
+        if not ok:
+            return None
+    return f"private helper; all {len(calls)} call sites pass a container created by the caller itself for `{root}`"
+
+
 def analyse_tree(src_root):
     """all flagged sites in src/vector, plus the census of functions analysed"""
+    CALLS.clear()
     sites, nfun, nfiles = [], 0, 0
     for dp, dn, fns in os.walk(src_root):
         for fn in sorted(fns):
@@ -265,6 +307,8 @@ def analyse_tree(src_root):
                         fe = FunctionEffects(ch, q, rel)
                         fe.visit(ch)
                         sites += fe.sites
+                        for c in fe.calls:
+                            CALLS.setdefault(c[0], []).append(c)
                         nfun += 1
                         stack.append((ch, q + "."))
                     elif isinstance(ch, ast.ClassDef):
